@@ -57,7 +57,7 @@ class C04(HistoryCheck):
     LEVEL = "fault_enumeration"
     RUNS = {"quick": 1500, "thorough": 30000}
     PROFILE = {"allow_frozen": False, "allow_class_dnc": False, "allow_lookup_preparer": True}
-    OPGEN = {"p_bad": 0.4, "p_inplace": 0.55, "p_returner": 0.3,
+    OPGEN = {"p_bad": 0.4, "p_inplace": 0.55, "p_returner": 0.3, "p_user_keyfn": 0.5,
              "weights": {"new": 2, "scalar": 6, "element": 9, "toplevel": 4, "set": 3, "del": 1.5,
                          "get": 0.3, "deepcopy": 0.5}}
     N_OPS = {"quick": (8, 22), "thorough": (10, 35)}
